@@ -27,7 +27,7 @@ LABEL_READERS = ("DDM", "EDDM", "STEPD", "LinearFourRates", "ADWINAccuracy")
 X_STREAM = ("ADWIN", "CUSUM", "PageHinkley", "KdqTreeStreaming", "PCACD")
 BATCH = ("HDDDM", "CDBD", "KdqTreeBatch", "NNDVI")
 
-CFGS_PER_SYSTEM = {"quick": 3, "thorough": 8}
+CFGS_PER_SYSTEM = {"quick": 3, "thorough": 5}
 K = {"quick": 1, "thorough": 2}
 
 
